@@ -5,7 +5,9 @@ LABEL_SPELLINGS = ["getitem", "take", "dictn", "dicti", "loc", "sel", "axisn", "
 POS_SPELLINGS = ["ix", "iloc", "isel", "takepos", "dictpos", "axispos"]
 
 
-def dec_tuple(ixs, kinds):
+def dec_tuple(ixs, kinds, mode="label"):
+    if mode == "position":
+        kinds = ["i"] * len(ixs)
     return tuple(decode_ix(ix, kinds[i] if i < len(kinds) and ix[0] != "e" else None) for i, ix in enumerate(ixs))
 
 
@@ -29,9 +31,11 @@ def index_arg(ixs, kinds):
     return t
 
 
-def get(a, ixs, spelling, kinds, dims=None, tol=None, keepdims=False):
+def get(a, ixs, spelling, kinds, dims=None, tol=None, keepdims=False, mode="label"):
     """read with the given spelling; label-mode spellings first, then position-mode ones"""
     dims = dims or list(a.dims)
+    if mode == "position":
+        kinds = ["i"] * max(len(ixs), len(kinds))
     t = dec_tuple(ixs, kinds)
     kw = {}
     if tol is not None:
@@ -51,6 +55,8 @@ def get(a, ixs, spelling, kinds, dims=None, tol=None, keepdims=False):
         if kw:
             return a.take(t, indexing="label", **kw)
         return a.loc[t[0]] if len(t) == 1 else a.loc[t]
+    if spelling == "nloc":
+        return a.nloc[t[0]] if len(t) == 1 else a.nloc[t]
     if spelling == "dictn":
         return a.take({dims[i]: decode_ix(ix, kinds[i]) for i, ix in nf}, **kw)
     if spelling == "dicti":
@@ -82,9 +88,11 @@ def get(a, ixs, spelling, kinds, dims=None, tol=None, keepdims=False):
     raise ValueError(spelling)
 
 
-def put(a, ixs, value, spelling, kinds, dims=None, **kw):
+def put(a, ixs, value, spelling, kinds, dims=None, mode="label", **kw):
     """assignment spellings (C03, C20).  Returns the modified copy when inplace=False."""
     dims = dims or list(a.dims)
+    if mode == "position" or spelling in ("ixset", "ilocset", "putpos"):
+        kinds = ["i"] * max(len(ixs), len(kinds))
     t = dec_tuple(ixs, kinds)
     nf = nonfull(ixs)
     if spelling == "setitem":
